@@ -360,10 +360,19 @@ def _nontrivial_calls(b):
     return out
 
 
-def _check_mode_method(b, want):
+def _check_mode_method(b, want, facts=None):
     cs = _nontrivial_calls(b)
     if want == "none":
         return len(cs) == 0, "calls %s" % [callee_path(f) if f else "<indirect>" for _, _, f in cs]
+    if want.startswith("call:") and facts is not None:
+        # exactly one effect: the invocation of closure parameter n - written out, or through a sibling Mode method that does
+        # just that (`Emit::map(x, f)` = `Emit::bind(|| f(x))`): effects normal form (engine/nf.py) inlines the delegation
+        import re as _re
+        from rules_types import effects_nf
+        n = int(want.split(":")[1])
+        eff = effects_nf(facts, b)
+        ok = len(eff) == 1 and _re.match(r"^call(_once|_mut)?\(arg%d[,)]" % n, eff[0]) is not None
+        return ok, "does %s" % eff
     if want.startswith("call:"):
         n = int(want.split(":")[1])
         if len(cs) != 1:
@@ -404,7 +413,7 @@ def rule_mode_pair(facts):
                     continue
                 r.errors.append("anchor <%s as Mode>::%s: found %d bodies" % (mode, meth, len(bs)))
                 continue
-            ok, why = _check_mode_method(bs[0], want)
+            ok, why = _check_mode_method(bs[0], want, facts)
             pairs += 1
             r.ob(ok)
             if not ok:
